@@ -225,7 +225,8 @@ pub fn connection(r: &mut Rng, spec: &ConnSpec, t0: u64) -> Vec<Frame> {
     let nseg = 1 + r.below(4) as usize;
     let mut cuts: Vec<usize> = (0..nseg - 1).map(|_| 1 + r.below(client_bytes.len() as u64 - 1) as usize).collect();
     cuts.push(0); cuts.push(client_bytes.len()); cuts.sort(); cuts.dedup();
-    if spec.kind == 1 && cuts.len() > 2 && cuts[1] < 5 { cuts[1] = 5.min(client_bytes.len()); cuts.sort(); cuts.dedup(); }
+    // a ClientHello's first segment holds at least the 5-byte record header
+    if spec.kind == 1 { cuts.retain(|&c| c == 0 || c >= 5); }
     for w in cuts.windows(2) {
         now += 30 + r.below(300);
         let mut d = Tcp::new(cport, sport, PSH | ACK); d.seq = isn_c.wrapping_add(1 + w[0] as u32); d.ack = isn_s.wrapping_add(1);
